@@ -17,6 +17,7 @@ RULE = (
     "that lists a child coming from another parent. Enumerated distinct by construction; histories hashed."
     " Also: refusals (loops, duplicates) at the bottom of chains deeper than the interpreter's recursion limit, and every call on every forest N <= 3/4 of a class that locks the tree through an override of the public parent property."
     ' Also: vetoed legal calls on classes whose repr() raises; vetoes of the attach phase after _pre_detach_children re-filed a child.'
+    ' Rounds 11-14: RecursionError/MemoryError vetoes, look-alike non-nodes, text/bytes as children value.'
 )
 ASSUMPTIONS = [
     "in scope: the call raised TreeError/LoopError, TypeError for non-iterable children, any exception for a parent that is not a tree node (LightNodeMixin raises AttributeError there), or every hook exception that fired came from a _pre_* hook; post-hook faults are out of scope (documented: no rollback)",
